@@ -151,8 +151,11 @@ class Edits:
 
 def nodes_of(item, kind=None, pred=None):
     r = []
+    scope = item.get("scope")
     for n in item["nodes"]:
         if kind is not None and n["kind"] != kind:
+            continue
+        if scope is not None and not (scope[0] <= n["range"][0] and n["range"][1] <= scope[1]):
             continue
         if pred is not None and not pred(n):
             continue
@@ -328,8 +331,14 @@ def r14_str_eq(src, item, ed, opts):
     """`A == B` / `A != B` on str values at sites named in the sidecar:
     str_eq = [{n=0}] ordinal among ==/!= binaries of the fn"""
     bins = [n for n in nodes_of(item, "binary") if n["op"] in ("==", "!=")]
+    allbins = bins
     for sp in opts.get("str_eq", []):
-        k = sp["n"]
+        bins = allbins
+        if sp.get("right"):
+            bins = [n for n in bins if src.text(*n["right"]).replace(" ", "") == sp["right"].replace(" ", "")]
+        if sp.get("left"):
+            bins = [n for n in bins if src.text(*n["left"]).replace(" ", "") == sp["left"].replace(" ", "")]
+        k = sp.get("n", 0)
         if k >= len(bins):
             raise LostAnchor(f"==/!= #{k} of {item['path']}")
         n = bins[k]
@@ -551,6 +560,27 @@ def r7_writer(src, item, ed, opts):
                 break
 
 
+def r18_rendering_error(src, item, ed, opts):
+    """the compiler-expanded body of `rendering_error!` -> `return Err(vx_rendering_error())`.
+    Dropped: message text, span lookup, report-target choice.  Kept: that the arm returns a
+    rendering error at this point."""
+    want = "returnErr(Error::new(ErrorKind::RenderingError(Box::new(err))))"
+    for n in nodes_of(item, "return"):
+        if src.text(*n["range"]).replace(" ", "").replace("\n", "") != want:
+            continue
+        blk = None
+        for an in ancestors(item, n):
+            if an["kind"] == "block":
+                t = norm_tokens(src.text(*an["range"]))
+                if t.startswith('{ let chunk = state.chunk.expect("to have a chunk");'):
+                    blk = an
+                    break
+        if blk is None:
+            raise Unsupported("rendering_error! expansion not recognised")
+        ed.replace(blk["range"][0], blk["range"][1], "{ return Err(vx_rendering_error()); }", "R18", subsume=True)
+        ed.count("R18")
+
+
 def r25_closure_wildcard(src, item, ed, opts):
     """closure parameter `_` -> a fresh variable name (Verus accepts only variables there)"""
     for j, p in enumerate(item.get("inputs", [])):
@@ -566,6 +596,7 @@ def r25_closure_wildcard(src, item, ed, opts):
 
 RULES = {
     "R6": r6_mem_replace,
+    "R18": r18_rendering_error,
     "R7": r7_writer,
     "R8": r8_iter_any,
     "R25": r25_closure_wildcard,
@@ -620,7 +651,7 @@ def extract_fn(src, spec, unit_rules):
 
     rules = list(unit_rules) + list(spec.get("rewrites", []))
     for rname in rules:
-        if rname in ("R9", "R15", "R16", "R18", "R19", "R23"):
+        if rname in ("R9", "R15", "R16", "R19", "R23"):
             continue
         if rname not in RULES:
             raise Unsupported(f"unknown rule {rname}")
@@ -786,6 +817,119 @@ def extract_fn(src, spec, unit_rules):
     }
 
 
+def extract_arm(src, spec, unit_rules):
+    """R16 arm extraction: the block of one match arm of a big function becomes a function.
+    spec: path (the enclosing fn), arm (pattern text), name, params, requires/ensures ...
+    What is dropped: the enclosing loop/match and the `ip += 1` that follows, so arm contracts say
+    nothing about control transfer; arms containing `continue`/`break` or assigning `ip` are refused."""
+    fn = src.find("fn", spec["path"])
+    want = spec["arm"].replace(" ", "")
+    arms = [n for n in fn["nodes"] if n["kind"] == "arm" and n["pat_text"] == want]
+    if len(arms) != 1:
+        raise LostAnchor(f"arm `{spec['arm']}` of {spec['path']} ({len(arms)} matches)")
+    arm = arms[0]
+    body = arm["body"]
+    item = dict(fn)
+    item["scope"] = tuple(body)
+    for n in nodes_of(item):
+        if n["kind"] in ("continue", "break"):
+            # allowed only inside a loop that is itself inside the arm
+            ok = False
+            for an in ancestors(item, n):
+                if an["kind"] == "loop" and inside(an, body):
+                    ok = True
+                    break
+            if not ok:
+                raise Unsupported(f"arm `{spec['arm']}` transfers control (continue/break)")
+        if n["kind"] == "assign" and n["left_text"] == "ip":
+            raise Unsupported(f"arm `{spec['arm']}` assigns ip")
+    ed = Edits()
+    for (s0, e0) in src.attrs:
+        if body[0] <= s0 and e0 <= body[1]:
+            t = src.text(s0, e0)
+            if t.startswith("#[cfg"):
+                raise Unsupported("cfg attribute inside arm")
+            ed.replace(s0, e0, "", "R0")
+    rules = list(unit_rules) + list(spec.get("rewrites", []))
+    for rname in rules:
+        if rname in ("R9", "R15", "R16", "R19", "R23"):
+            continue
+        RULES[rname](src, item, ed, spec)
+    if "shims" in spec and "R24" not in rules:
+        r24_call_shim(src, item, ed, spec)
+    for at in spec.get("at", []):
+        kind, _, ordn = at["anchor"].partition(":")
+        sel = at.get("select")
+        if kind in ("return",):
+            c = nodes_of(item, kind)
+        elif kind == "methodcall":
+            c = [n for n in nodes_of(item, "methodcall") if n["method"] == sel and (at.get("recv") is None or n["receiver_text"] == at["recv"].replace(" ", ""))]
+        elif kind == "let":
+            c = [n for n in nodes_of(item, "let") if n["pat_text"] == sel.replace(" ", "")]
+        else:
+            raise Unsupported(f"arm anchor kind {kind}")
+        k = int(ordn or 0)
+        if k >= len(c):
+            raise LostAnchor(f"anchor {at['anchor']} {sel or ''} of arm {spec['arm']}")
+        n = c[k]
+        target = n
+        if kind == "methodcall":
+            for an in ancestors(item, n):
+                if an["kind"] in ("let", "assign"):
+                    target = an
+                    break
+                if an["kind"] in ("block", "loop", "arm", "closure", "if", "match"):
+                    break
+        if at.get("pos", "before") == "before":
+            ed.insert(target["range"][0], at["text"].strip() + "\n", "ghost")
+        else:
+            e = target["range"][1]
+            if src.data[e:e + 1] == b";":
+                e += 1
+            ed.insert(e, "\n" + at["text"].strip() + "\n", "ghost")
+    loops = nodes_of(item, "loop")
+    for ls in spec.get("loop", []):
+        k = ls["n"]
+        if k >= len(loops):
+            raise LostAnchor(f"loop #{k} of arm {spec['arm']}")
+        n = loops[k]
+        if ls.get("before"):
+            ed.insert(n["range"][0], ls["before"].strip() + "\n", "ghost")
+        if ls.get("iter") and n["loop_kind"] == "for":
+            ed.insert(n["expr"][0], ls["iter"] + ": ", "ghost")
+        inv = clause("invariant", ls.get("invariant")) + clause("invariant_except_break", ls.get("invariant_except_break")) + clause("ensures", ls.get("ensures")) + clause("decreases", ls.get("decreases"))
+        if inv:
+            ed.insert(n["body"][0], inv + "\n", "ghost")
+        if ls.get("body_start"):
+            ed.insert(n["body"][0] + 1, "\n" + ls["body_start"].strip() + "\n", "ghost")
+        if ls.get("body_end"):
+            ed.insert(n["body"][1] - 1, "\n" + ls["body_end"].strip() + "\n", "ghost")
+        if ls.get("after"):
+            ed.insert(n["range"][1], "\n" + ls["after"].strip() + "\n", "ghost")
+    ed.count("R16")
+    if arm["body_is_block"]:
+        inner = ed.apply(src, body[0] + 1, body[1] - 1)
+    else:
+        inner = ed.apply(src, body[0], body[1]) + ";"
+    contract = clause("requires", spec.get("requires")) + clause("ensures", spec.get("ensures"))
+    ret = spec.get("ret", "r")
+    text = (
+        f"pub fn {spec['name']}({spec['params']}) -> ({ret}: TeraResult<()>)" + contract + "\n{\n"
+        + (spec.get("body_start", "").strip() + "\n" if spec.get("body_start") else "")
+        + inner + "\n"
+        + (spec.get("body_end", "").strip() + "\n" if spec.get("body_end") else "")
+        + "    Ok(())\n}\n"
+    )
+    raw = src.text(body[0], body[1])
+    return {
+        "item": {"name": spec["name"], "range": list(body)},
+        "text": text,
+        "raw": raw,
+        "counts": ed.counts,
+        "hash": hashlib.sha256(norm_tokens(raw).encode()).hexdigest()[:16],
+    }
+
+
 def lift_self(text, spec):
     """R19: `self` -> `self_`, `Self` -> the type, receiver -> typed parameter, sibling trait
     calls renamed (spec['self_ty'], spec['siblings'] = {".partial_cmp(": "value_partial_cmp"})"""
@@ -841,6 +985,10 @@ def extract_type(src, spec, unit_rules):
         for c in collapse:
             if c not in names:
                 raise LostAnchor(f"field `{c}` of {spec['path']}")
+        hdr = src.text(item["start"], item["fields"][0]["range"][0]) if item["fields"] else ""
+        mg = re.search(r"struct\s+\w+\s*<([^>]*)>", hdr)
+        lts = [g.strip() for g in mg.group(1).split(",") if g.strip().startswith("'")] if mg else []
+        phantom = "".join(f"pub vx_lt{i}: core::marker::PhantomData<&{lt} ()>, " for i, lt in enumerate(lts))
         first = True
         for f in item["fields"]:
             if f["name"] in collapse:
@@ -849,9 +997,15 @@ def extract_type(src, spec, unit_rules):
                 m = re.match(rb"\s*,", src.data[e:e + 16])
                 if m:
                     e += m.end()
-                ed.replace(f["range"][0], e, "pub vx_opaque: VxOpaque, " if first else "", "R15", subsume=True)
+                ed.replace(f["range"][0], e, ("pub vx_opaque: VxOpaque, " + phantom) if first else "", "R15", subsume=True)
                 first = False
         ed.count("R15")
+    for fname, newty in spec.get("retype", {}).items():
+        fs = [f for f in item.get("fields", []) if f["name"] == fname]
+        if not fs:
+            raise LostAnchor(f"field `{fname}` of {spec['path']}")
+        ed.replace(fs[0]["ty"][0], fs[0]["ty"][1], newty, "R7")
+        ed.count("R7")
     if item["kind"] == "static" and "R9" in unit_rules:
         st = item["static_tok"]
         ed.replace(st[0], st[1], "const", "R9")
